@@ -119,6 +119,8 @@ def char_scenarios(tier, seed):
                               what=f'every string of {n} printable non-letter characters (first character: {cname})', samples=20))
     # (B) one free character substituted / inserted at every position of a well-formed text, (C) two free characters
     bases = base_strings(rnd, 30 if tier == 'quick' else 200)
+    # parenthesised single operands next to short-circuiting operators: one deletion / one blank leaves an empty pair of parentheses
+    bases += ['1 || (0)', '0 && (1)', '(2) == (2)', '1<2 || (3)', 'sin(1 || (0))', 'pow(0 && (1), 2)', '(1)||(0)']
     for bi, text in enumerate(bases):
         for p in range(len(text) + 1):
             if p < len(text):
